@@ -83,7 +83,7 @@ def evaluate_with_simplex_interpolation(inputs, kernel, units, lattice_sizes,
   # parameters) when moving across each dimension.
   # E.g. for 2x2x2, strides are [4, 2, 1].
   strides = tf.constant(
-      np.cumprod([1] + lattice_sizes[::-1][:-1])[::-1], tf.int32)
+      np.cumprod([1] + list(lattice_sizes[::-1][:-1]))[::-1], tf.int32)
 
   if not all_size_2:
     # Find offset (into flattened parameters) for the lower corner of the
